@@ -181,3 +181,29 @@ func H_C01_int_width_lists() { hWidthLists() }
 
 // H_C07_int_width_lists: the same harness under C07 (every element decodes to exactly the same number).
 func H_C07_int_width_lists() { hWidthLists() }
+
+// ZUnicodeNames: exported fields whose first letter is a capital outside ASCII.
+type ZUnicodeNames struct {
+	Ärger  string
+	Ωhm    int32
+	Élan   []int32
+	Normal int32
+	Ölung  *ZInner
+}
+
+// H_C01_unicode_field_names: whatever the class definition calls such fields on the wire, the decoder finds them
+// again: every field value comes back.
+func H_C01_unicode_field_names() {
+	x := vInt32("x")
+	v := &ZUnicodeNames{Ärger: "a", Ωhm: x, Élan: []int32{1, x}, Normal: 4, Ölung: &ZInner{N: x, S: "o"}}
+	typMap, nameMap := vExtract(v)
+	bs, err := ToBytes(v, nameMap)
+	vAssert("encode-noerr", err == nil)
+	_, n, p := refParse(bs)
+	vAssert("wire-wellformed", p.err == "" && n == len(bs))
+	out, err := ToObject(bs, typMap)
+	vAssert("decode-noerr", err == nil)
+	g, ok := out.(*ZUnicodeNames)
+	vAssert("type", ok && g != nil)
+	vAssert("fields", g.Ärger == "a" && g.Ωhm == x && len(g.Élan) == 2 && g.Élan[1] == x && g.Normal == 4 && g.Ölung != nil && g.Ölung.N == x)
+}
